@@ -6,7 +6,7 @@ base = json.load(open('/root/.vp/BASELINE.json'))
 fd, xml = tempfile.mkstemp(suffix='.xml', dir='/dev/shm'); os.close(fd)
 env = dict(os.environ); env.pop('LEUVENMAPMATCHING_VERIF', None)
 subprocess.run(['/venv/bin/python', '-m', 'pytest', '-q', '-p', 'no:cacheprovider', '--timeout=900',
-                '--continue-on-collection-errors', '--junitxml=' + xml], cwd='/repo', env=env,
+                '--continue-on-collection-errors', '--junitxml=' + xml], cwd=os.environ.get('BASELINE_REPO', '/repo'), env=env,
                stdout=subprocess.DEVNULL, stderr=subprocess.DEVNULL)
 passed = set()
 for tc in ET.parse(xml).getroot().iter('testcase'):
